@@ -29,6 +29,22 @@ let handle ws = match ws with
     let nbn = bign_of_hex (Printf.sprintf "%Lx" (Int64.of_string ("0u" ^ nb))) in
     let chunks = chunks_of c in
     both (sm3_from_state stw nbn chunks) (sm3_from_state_spec stw nbn (List.concat chunks))
+  | ["hashst"; alg; nb; st; c] ->
+    let b = Array.of_list (List.map int_of_n (bytes_of_hex st)) in
+    let word w i = (* big-endian word of w bytes at index i, as n *)
+      bign_of_hex (String.concat "" (List.init w (fun j -> Printf.sprintf "%02x" b.(w*i+j)))) in
+    let nbn = bign_of_hex (Printf.sprintf "%Lx" (Int64.of_string ("0u" ^ nb))) in
+    let chunks = chunks_of c in
+    let m = List.concat chunks in
+    let rec take k l = if k = 0 then [] else (match l with [] -> [] | x :: r -> x :: take (k-1) r) in
+    (match alg with
+     | "sm3" -> let s = List.init 8 (word 4) in both (sm3_from_state s nbn chunks) (sm3_from_state_spec s nbn m)
+     | "sha1" -> let s = List.init 5 (word 4) in both (sha1_from_state s nbn chunks) (sha1_from_state_spec s nbn m)
+     | "sha256" -> let s = List.init 8 (word 4) in both (sha256_from_state s nbn chunks) (sha256_from_state_spec s nbn m)
+     | "sha224" -> let s = List.init 8 (word 4) in both (take 28 (sha256_from_state s nbn chunks)) (take 28 (sha256_from_state_spec s nbn m))
+     | "sha512" -> let s = List.init 8 (word 8) in both (sha512_from_state s nbn chunks) (sha512_from_state_spec s nbn m)
+     | "sha384" -> let s = List.init 8 (word 8) in both (take 48 (sha512_from_state s nbn chunks)) (take 48 (sha512_from_state_spec s nbn m))
+     | _ -> "ERR")
   | ["hmac"; key; c] ->
     let k = bytes_of_hex key and chunks = chunks_of c in
     both (sm3_hmac k chunks) (sm3_hmac_spec k (List.concat chunks))
